@@ -69,3 +69,15 @@ func lemmaColStrRoundTrip(c ColStr) (d *ColStr, r *Reader, err error) {
 	err = d.DecodeColumn(r, len(c.Pos))
 	return
 }
+
+// lemmaConflictsSymmetric / lemmaConflictsReflexive: the type-compatibility relation evaluated in
+// both orders (and on equal arguments); see contracts_types_verif.go.
+func lemmaConflictsSymmetric(a, b ColumnType) (x, y bool) {
+	x = a.Conflicts(b)
+	y = b.Conflicts(a)
+	return
+}
+
+func lemmaConflictsReflexive(a ColumnType) (x bool) {
+	return a.Conflicts(a)
+}
